@@ -41,6 +41,12 @@ def check(repo, tier="quick"):
     rule_g(res, m)
     rule_axes(res, m)
     rule_resize(res, m)
+    rule_subsample(repo, res)
+    from .. import globals_state
+
+    globals_state.rule(repo, res, "C22.i", ["picture_generators", "dimensions_and_depths", "color_conversion"], what="the size, depth or samples of the pictures generated for one format (a format used later in the same process could be answered from an earlier one's)")
+    res.rule("C22.i", "history independence: the generators, the size/depth computation and the colour conversion keep no state between calls")
+    res.floor("C22.i", 3)
     res.floor("C22.g", 5)
     res.floor("C22.f", 8)
     res.floor("C22.e", 9)
@@ -470,6 +476,41 @@ def _kills(d, call, names):
         both = all(any(isinstance(x, ast.Assign) and any(dotted(t) in names for t in x.targets) for x in arm) for arm in (par.body, par.orelse))
         return both and holds(par)
     return False
+
+
+def rule_subsample(repo, res):
+    """C22.e (coded size of the colour-difference components): from_444 decides what to do from the sampling format
+    alone -- each arm of its chain tests `subsampling == <one format>` and nothing else -- returns its input only for
+    4:4:4, halves the width (shape (h, w // 2)) for 4:2:2 and both (h // 2, w // 2) for 4:2:0"""
+    cm, fn = repo.func("color_conversion:from_444")
+    ch, sp = [a.arg for a in fn.args.args[:2]]
+    where = "%s:from_444" % cm.rel
+    chain = [s for s in fn.body if isinstance(s, ast.If)]
+    arms = []
+    node = chain[0] if len(chain) == 1 else None
+    while node is not None:
+        arms.append(node)
+        node = node.orelse[0] if len(node.orelse) == 1 and isinstance(node.orelse[0], ast.If) else None
+    want = {"color_4_4_4": None, "color_4_2_2": "(h, w // 2)", "color_4_2_0": "(h // 2, w // 2)"}
+    seen = {}
+    for a in arms:
+        t = a.test
+        fmt = None
+        if isinstance(t, ast.Compare) and len(t.ops) == 1 and isinstance(t.ops[0], ast.Eq) and dotted(t.left) == sp:
+            fmt = dotted(t.comparators[0]).split(".")[-1]
+        if fmt not in want:
+            res.check(False, "C22.e", "from_444:arm(%s)" % short(t, 50), where, "an arm of from_444 is selected by `%s`, not by the sampling format alone: pictures of some size then keep (or lose) colour-difference samples the coded size does not have" % short(t, 70), by="subsampling == <format>")
+            continue
+        if want[fmt] is None:
+            ok = len(a.body) == 1 and isinstance(a.body[0], ast.Return) and dotted(a.body[0].value) == ch
+        else:
+            shapes = [norm(c.args[0]) for b in a.body for c in ast.walk(b) if isinstance(c, ast.Call) and dotted(c.func) in ("np.empty", "np.zeros") and c.args]
+            unp = any(isinstance(x, ast.Assign) and norm(x.targets[0]) in ("(h, w)", "h, w") and norm(x.value) == "%s.shape" % ch for x in a.body)
+            rets = [r for b in a.body for r in ast.walk(b) if isinstance(r, ast.Return)]
+            ok = unp and shapes == [want[fmt]] and len(rets) == 1
+        seen[fmt] = ok
+        res.check(ok, "C22.e", "from_444:%s" % fmt, where, "the %s arm must %s" % (fmt, "return its input unchanged" if want[fmt] is None else "allocate its result with shape %s from h, w = %s.shape" % (want[fmt], ch)), by="shape %s" % (want[fmt] or "unchanged"))
+    res.check(set(seen) == set(want), "C22.e", "from_444:every-format-has-an-arm", where, "from_444 must have one arm per sampling format (found %s)" % sorted(seen), by="4:4:4, 4:2:2, 4:2:0")
 
 
 def rule_resize(res, m):
